@@ -6,16 +6,19 @@
 set -u
 PATCH=$(realpath "$1"); IDS=$2; TIER=${3:-quick}; WITH_TESTS=${4:-}
 S=$(mktemp -d /tmp/tuv-mut-XXXXXX)
+# a sweep may pin the harness sources / warm target it started with (snapshot dirs)
+[ -z "${TUV_HARNESS_SRC:-}" ] && [ -d /tmp/harness-snap ] && TUV_HARNESS_SRC=/tmp/harness-snap
+[ -z "${TUV_TARGET_SRC:-}" ] && [ -d /tmp/target-snap ] && TUV_TARGET_SRC=/tmp/target-snap
 trap 'rm -rf "$S"' EXIT
 mkdir -p "$S/verif"
 rsync -a --exclude target --exclude .git /repo/ "$S/repo/"
 ( cd "$S/repo" && patch -p1 -s < "$PATCH" ) || { echo "PATCH-FAILED $PATCH"; exit 3; }
-rsync -a --exclude target /verif/harness/ "$S/harness/"
+rsync -a --exclude target "${TUV_HARNESS_SRC:-/verif/harness}/" "$S/harness/"
 sed -i "s|path = \"/repo\"|path = \"$S/repo\"|" "$S/harness/Cargo.toml"
 cp -a /verif/replays "$S/verif/replays" 2>/dev/null; rm -rf "$S/verif/replays/found"
 cp /verif/known_findings.jsonl "$S/verif/" 2>/dev/null
 # warm start from the main target dir
-cp -a --reflink=auto /verif/target "$S/target" 2>/dev/null
+cp -a --reflink=auto "${TUV_TARGET_SRC:-/verif/target}" "$S/target" 2>/dev/null
 export CARGO_NET_OFFLINE=true CARGO_TARGET_DIR="$S/target" TUV_VERIF_ROOT="$S/verif"
 if [ "$WITH_TESTS" = "--with-tests" ]; then
   ( cd "$S/repo" && CARGO_TARGET_DIR="$S/rtarget" cargo test --offline 2>&1 | grep -E "^test result|FAILED|failed" | head -5 )
